@@ -769,6 +769,173 @@ func replacedScenario(dec vivid.SupervisionDecision, cause string, bounds []int)
 	}
 }
 
+// siblingsScenario: under a one-for-all supervisor whose decision depends on who failed, b fails (decision decB) and, right
+// behind it, a - which has a child and a backlog of mail - fails too (decision decA). Whatever b's directive does to a (a is
+// one of its targets), a's own failure is still handled with a paused: its backlog is not lost.
+func siblingsScenario(decA, decB vivid.SupervisionDecision, bounds []int) *vexp.Scenario {
+	return &vexp.Scenario{
+		Name:   fmt.Sprintf("concurrent-sibling-failures/decA=%s/decB=%s", decA, decB),
+		Family: "dec=" + decA.String(),
+		Cfg:    vsys.Coarse(80000),
+		Bounds: bounds,
+		Setup:  func(x *vexp.X) { vsys.CoarseSetup() },
+		Body: func(x *vexp.X) {
+			rule := func(pr, name, format string, a ...any) {
+				if pr == *prop {
+					x.Fail(strings.ToLower(pr)+"."+name, format, a...)
+				}
+			}
+			w := vsys.NewWorld(x)
+			w.Quiet = true
+			w.Start()
+			boomer := func(a *vsys.Act, ctx vivid.ActorContext, m vsys.Msg) {
+				if m.ID == "boom" {
+					panic("scripted")
+				}
+			}
+			a := &vsys.Script{Name: "a", Children: []*vsys.Script{{Name: "g"}}, OnMsg: boomer}
+			b := &vsys.Script{Name: "b", OnMsg: boomer}
+			s := &vsys.Script{Name: "s", Children: []*vsys.Script{a, b}}
+			s.Strategy = vivid.OneForAllStrategy(vivid.SupervisionStrategyDecisionMakerFN(func(sc vivid.SupervisionContext) (vivid.SupervisionDecision, string) {
+				who := "?"
+				if f := sc.Child().First(); f != nil {
+					who = f.GetPath()
+				}
+				d := decA
+				if who == "/s/b" {
+					d = decB
+				}
+				w.Decisions = append(w.Decisions, fmt.Sprintf("/s<-%s:%s", who, d))
+				return d, "scripted"
+			}))
+			w.SpawnRoot(s)
+			vrt.QuiesceNoTimers()
+			ra, rb := w.Ref("/s/a"), w.Ref("/s/b")
+			w.Sys.Tell(rb, vsys.Msg{ID: "boom"})
+			w.Sys.Tell(ra, vsys.Msg{ID: "boom"})
+			sent := []string{"m1", "m2", "m3"}
+			for _, id := range sent {
+				w.Sys.Tell(ra, vsys.Msg{ID: id})
+			}
+			vrt.Quiesce()
+			// (if the directive handled first stops every child, the other one is gone before the report of its own failure is looked at: then nobody is consulted about it)
+			if n := len(w.Decisions); n > 2 || n < 1 || (n == 1 && !decA.IsStop() && !decB.IsStop()) {
+				rule("C08", "decision-consulted-once", "two children failed, the strategy was consulted %d times: %v", len(w.Decisions), w.Decisions)
+			}
+			// a's backlog: each message processed exactly once, in order, unless the decisions legitimately terminate a
+			aDies := decA.IsStop() || decB.IsStop()
+			var got []string
+			for _, en := range w.EntriesOf("/s/a") {
+				if en.Type == "Msg" && strings.HasPrefix(en.Detail, "m") {
+					got = append(got, en.Detail)
+				}
+			}
+			if !aDies && strings.Join(got, ",") != strings.Join(sent, ",") {
+				rule("C09", "queued-mail-delivered-in-order", "/s/a failed with %v queued behind the failing message (decisions: %v): it processed %v", sent, w.Decisions, got)
+			}
+			sysd := actor.VerifSys(w.Sys)
+			for _, c := range sysd.Contexts {
+				d := actor.VerifCtx(c)
+				if d.Paused && !d.Zombie {
+					rule("C09", "nobody-stays-paused", "%s is alive but its mailbox is still paused at quiescence (state=%d)", d.Path, d.State)
+				}
+				if d.State == 1 && !d.Zombie {
+					rule("C09", "nobody-half-stopped", "%s is stuck in the stopping state at quiescence (children=%v)", d.Path, d.Children)
+				}
+				if d.UserQ != 0 || d.SysQ != 0 {
+					rule("C09", "mail-consumed", "%s still has queued mail at quiescence (user=%d system=%d paused=%v)", d.Path, d.UserQ, d.SysQ, d.Paused)
+				}
+			}
+			err := w.Sys.Stop()
+			vrt.Quiesce()
+			if err != nil {
+				rule("C09", "stop-after-failure", "System.Stop after the scenario returned %v", err)
+			}
+			vsys.CheckLifecycle(w)
+			x.Outcome(w.Summary() + strings.Join(w.Decisions, ";"))
+		},
+	}
+}
+
+// zombieSiblingScenario: under a one-for-all supervisor a's restart hook fails (a becomes a zombie); later its sibling b fails and
+// the directive for b reaches the zombie as well. The zombie stays inert but keeps consuming its mail, and can still be released:
+// by a poison kill, by the termination of its parent, by System.Stop.
+func zombieSiblingScenario(dec vivid.SupervisionDecision, release string, bounds []int) *vexp.Scenario {
+	return &vexp.Scenario{
+		Name:   fmt.Sprintf("zombie-then-sibling-fails/dec=%s/release=%s", dec, release),
+		Family: "dec=" + dec.String(),
+		Cfg:    vsys.Coarse(80000),
+		Bounds: bounds,
+		Setup:  func(x *vexp.X) { vsys.CoarseSetup() },
+		Body: func(x *vexp.X) {
+			rule := func(pr, name, format string, a ...any) {
+				if pr == *prop {
+					x.Fail(strings.ToLower(pr)+"."+name, format, a...)
+				}
+			}
+			w := vsys.NewWorld(x)
+			w.Quiet = true
+			w.Start()
+			boomer := func(a *vsys.Act, ctx vivid.ActorContext, m vsys.Msg) {
+				if m.ID == "boom" {
+					panic("scripted")
+				}
+			}
+			a := &vsys.Script{Name: "a", OnMsg: boomer, Restarted: func(*vsys.Act) error { return errors.New("scripted restart-hook failure") }}
+			b := &vsys.Script{Name: "b", OnMsg: boomer}
+			s := &vsys.Script{Name: "s", Children: []*vsys.Script{a, b}}
+			s.Strategy = w.Decider("/s", true, dec)
+			w.SpawnRoot(s)
+			vrt.QuiesceNoTimers()
+			ra, rb := w.Ref("/s/a"), w.Ref("/s/b")
+			w.Sys.Tell(ra, vsys.Msg{ID: "boom"})
+			vrt.Quiesce() // a is a zombie now
+			w.Sys.Tell(rb, vsys.Msg{ID: "boom"})
+			vrt.Quiesce() // b's directive has reached every child of /s, the zombie included
+			w.Sys.Tell(ra, vsys.Msg{ID: "to-the-zombie"})
+			vrt.Quiesce()
+			for _, en := range w.EntriesOf("/s/a") {
+				if en.Type == "Msg" && en.Detail == "to-the-zombie" {
+					rule("C09", "zombie-inert", "zombie /s/a ran user code for a message")
+				}
+			}
+			if zc := actor.VerifCtxOf(w.Sys, "/s/a"); zc != nil {
+				if d := actor.VerifCtx(zc); d.UserQ != 0 || d.SysQ != 0 {
+					rule("C09", "zombie-consumes-mail", "zombie /s/a still has queued mail after its sibling's failure was dealt with: user=%d system=%d paused=%v", d.UserQ, d.SysQ, d.Paused)
+				}
+			}
+			switch release {
+			case "poison-kill":
+				w.Sys.Kill(ra, true, "release")
+			case "parent-graceful":
+				w.Sys.Kill(w.Ref("/s"), true, "release")
+			}
+			vrt.Quiesce()
+			if release != "stop" {
+				if _, err := w.Sys.FindActor("localhost/s/a"); err == nil {
+					rule("C09", "zombie-released-by-kill", "zombie /s/a is still registered after %s", release)
+				}
+			}
+			err := w.Sys.Stop()
+			vrt.Quiesce()
+			if err != nil {
+				rule("C09", "stop-after-failure", "System.Stop after the scenario returned %v", err)
+			}
+			if reg := actor.VerifSys(w.Sys).Registry; len(reg) != 0 {
+				rule("C09", "stop-after-failure", "after System.Stop the registry still holds %v", reg)
+			}
+			x.Outcome(w.Summary() + strings.Join(w.Decisions, ";"))
+		},
+		Post: func(x *vexp.X, r *vrt.Result) {
+			for _, b := range r.Blocked {
+				if *prop == "C09" {
+					x.Fail("c09.no-thread-stuck", "thread still blocked after System.Stop: %s", b)
+				}
+			}
+		},
+	}
+}
+
 var decisions = []vivid.SupervisionDecision{
 	vivid.SupervisionDecisionRestart, vivid.SupervisionDecisionGracefulRestart, vivid.SupervisionDecisionStop,
 	vivid.SupervisionDecisionGracefulStop, vivid.SupervisionDecisionResume,
@@ -846,6 +1013,16 @@ func build(tier string) []*vexp.Scenario {
 	for _, cause := range []string{"panic", "failed"} {
 		for _, d := range decisions {
 			out = append(out, replacedScenario(d, cause, bounds))
+		}
+	}
+	for _, d := range []vivid.SupervisionDecision{vivid.SupervisionDecisionRestart, vivid.SupervisionDecisionGracefulRestart} {
+		for _, rel := range []string{"poison-kill", "parent-graceful", "stop"} {
+			out = append(out, zombieSiblingScenario(d, rel, bounds))
+		}
+	}
+	for _, da := range decisions {
+		for _, db := range decisions {
+			out = append(out, siblingsScenario(da, db, bounds))
 		}
 	}
 	// a child with queued mail fails while its parent is in the middle of its own (graceful) restart
